@@ -5,7 +5,11 @@ affine / quaternion type equal the reference elementary rotations over the atoms
 quaternions); from_euler(order, a, b, c) for each of the 24 EulerRot variants (the enum argument is specialised to each
 constant) equals the product of the three elementary rotations in the order spelled by the variant (Ex reversed),
 for Mat3/Mat3A/Mat4/DMat3/DMat4 and Quat/DQuat - polynomial identities in six atoms.
-Not decided: to_euler / to_axis_angle / to_scaled_axis inversion and its error growth near gimbal lock."""
+R-INV-EULER: to_euler of Mat3 / Mat3A / DMat3, for each of the 24 orders, inverts the reference rotation on the regular branch (each component is
++-atan2 of operands proportional to (sin, cos) of its own angle with a factor that is positive on the principal range).  R-INV-AXIS: to_axis_angle is
+(v/|v|, 2 atan2(|v|, w)) and rebuilds q under |q| = 1; to_scaled_axis = axis * angle.
+Not decided: error growth near gimbal lock / small angles, the conventional values chosen at the singularities, Quat / Mat4 to_euler delegation."""
+_X = """"""
 import re
 import terms as tm
 import nf
@@ -13,7 +17,7 @@ from nf import Poly, ONE
 from spec import Spec
 from matmodel import MatModel, DIMS
 from lift import value_lanes, strip_ref, ArgView
-from common import api_roots, vec_info, tydef, atom_at, TRUSTED_COMMON
+from common import api_roots, vec_info, tydef, atom_at, cell_term, TRUSTED_COMMON
 
 LEVEL = 'other'
 TECHNIQUE = 'exhaustive partial evaluation over the 24 EulerRot variants + polynomial identity checking over sin/cos atoms (MIR abstract interpretation)'
@@ -40,6 +44,265 @@ def block_ok(S, alg, ent, R3, cols, rows, where):
             if not S.eq(ent[(c, r)], exp):
                 return '%s: entry (col %d,row %d) is %s' % (where, c, r, ent[(c, r)][0].show(alg.name, 8))
     return None
+
+
+def _tuple_scalars(F, v, tyid):
+    t = F.types[tyid]
+    out = []
+    for (off, fid, _n) in t.get('fields', []):
+        out.append(cell_term(v, off, F.types[fid]['sz']))
+    return out
+
+
+def _cases(ts, limit=6):
+    from C12 import cases_with_assignment
+    return cases_with_assignment(ts, limit)
+
+
+def check_to_euler(ctx, cfg, F, H, M, done):
+    """R-INV-EULER: to_euler(order) applied to the reference rotation R(order; a, b, c) (product of the three elementary rotations, as from_euler is shown
+    to build) returns (a, b, c) on the regular branch: every returned component is +-atan2(N, D) with (N, D) = lambda (sin t, cos t) for its own
+    angle t and lambda in {1, cos b, sin b} - positive for the middle angle b in its principal range - as polynomial identities modulo sin^2 + cos^2 = 1."""
+    for name, it in api_roots(F):
+        st = (it.get('self_ty') or '').lstrip('&')
+        tname = st.rsplit('::', 1)[-1]
+        if it.get('trait') or (it.get('name') or '') != 'to_euler' or tname not in ('Mat3', 'Mat3A', 'DMat3'):
+            continue
+        body = F.body(it['key'])
+        argtys = body['locals'][1:1 + body['argc']]
+        rty = body['locals'][0]
+        for (label, r) in H.run_all(it['key']):
+            inst = '%s[%s]' % (name, label)
+            if r.abort:
+                ctx.undecided('R-INV-EULER', cfg, inst, r.abort)
+                continue
+            comps = _tuple_scalars(F, r.ret, rty) if r.ret is not None else None
+            ent, mi = M.arg_entries(r, 0, argtys[0])
+            if not comps or len(comps) != 3 or any(c is None for c in comps) or ent is None:
+                ctx.unverifiable('R-INV-EULER', cfg, inst, 'result components / matrix operand not found')
+                continue
+            cases = _cases(comps)
+            if cases is None:
+                ctx.undecided('R-INV-EULER', cfg, inst, 'too many selections')
+                continue
+            letters = label[:3]
+            ex = label.endswith('Ex')
+            repeated = letters[0] == letters[2]
+            bad = None
+            n_reg = 0
+            for asg, cs in cases:
+                if any(tm.is_const(c) for c in cs):
+                    continue      # gimbal-lock branch: one angle is fixed at 0 by convention
+                alg = nf.Algebra()
+                alg.budget = 400000
+                S = Spec(alg)
+                angs = [alg.nf(tm.atom('euler_angle_%d' % i)) for i in range(3)]
+                Rs = [S.rot_axis(AXIS[L], alg.sin_r(ang), alg.cos_r(ang)) for L, ang in zip(letters, angs)]
+                if ex:
+                    Rs = Rs[::-1]
+                R3 = S.matmul(S.matmul(Rs[0], Rs[1], 3), Rs[2], 3)
+                mapping = {alg.var_for_atom(ent[k]): R3[k][0] for k in ent if k[0] < 3 and k[1] < 3}
+                sb, cb = alg.sin_r(angs[1])[0], alg.cos_r(angs[1])[0]
+                # range of the middle angle: it is returned as sigma * atan2(non-negative square root, .), so sigma * sin b >= 0 for repeated-axis
+                # orders (b in [0, pi] or [-pi, 0]) and cos b >= 0 for the others (b in [-pi/2, pi/2])
+                sigma = 1
+                c1 = cs[1]
+                while c1.op == 'fneg':
+                    c1 = c1.args[0]
+                    sigma = -sigma
+                if sigma == -1:
+                    sb = -sb
+
+                def sub_rat(x):
+                    # substitute matrix entries by the reference rotation; square roots of cos^2 b / sin^2 b are cos b / sin b (principal range)
+                    n, d = x
+                    if d != ONE:
+                        raise ValueError('rational operand')
+                    m2 = dict(mapping)
+                    for v in n.variables():
+                        info = alg.var_info.get(v, ('?',))
+                        if info[0] == 'fn' and info[1] == 'sqrt' and v not in m2:
+                            rad = info[2]
+                            if rad is None or rad[1] != ONE:
+                                raise ValueError('square root of a rational')
+                            P = alg.substitute(rad[0], mapping)
+                            if alg.reduce(P - alg.mul(cb, cb)).is_zero():
+                                m2[v] = cb
+                            elif alg.reduce(P - alg.mul(sb, sb)).is_zero():
+                                m2[v] = sb
+                            else:
+                                raise ValueError('square root of %s' % P.show(alg.name, 4))
+                    return alg.substitute(n, m2)
+                try:
+                    for i, c in enumerate(cs):
+                        sign = 1
+                        while c.op == 'fneg':
+                            c = c.args[0]
+                            sign = -sign
+                        if c.op != 'atan2':
+                            bad = 'component %d is not +-atan2(..)' % i
+                            break
+                        n_, d_ = sub_rat(alg.nf(c.args[0])), sub_rat(alg.nf(c.args[1]))
+                        th = angs[i] if sign == 1 else S.neg(angs[i])
+                        s_, c_ = alg.sin_r(th)[0], alg.cos_r(th)[0]
+                        cross = alg.reduce(alg.mul(n_, c_) - alg.mul(d_, s_))
+                        lam = alg.reduce(alg.mul(n_, s_) + alg.mul(d_, c_))
+                        if not cross.is_zero():
+                            bad = 'component %d: atan2 operands are not proportional to (sin, cos) of angle %d of the reference rotation' % (i, i)
+                            break
+                        allowed = [Poly.const(1), cb, sb] if i != 1 else [Poly.const(1)]
+                        if not any((lam - a).is_zero() for a in allowed):
+                            bad = 'component %d: atan2 operands are (sin, cos) of angle %d scaled by %s, which is not positive on the principal range (the angle would be off by pi)' % (i, i, lam.show(alg.name, 4))
+                            break
+                except ValueError as e:
+                    bad = 'not analysable: %s' % e
+                if bad:
+                    break
+                n_reg += 1
+            if bad is None and n_reg == 0:
+                bad = 'no regular (non gimbal-lock) branch found'
+            done('R-INV-EULER', inst, bad, it)
+
+
+def check_to_euler_delegation(ctx, cfg, F, H, M, done):
+    """R-INV-DELEG: Quat / DQuat / Mat4 / DMat4 to_euler(order) is Mat3 / DMat3 to_euler(order) of from_quat(self) / from_mat4(self): the result terms
+    of the 3x3 form with its entries replaced by the entries of the conversion are identical, for each of the 24 orders."""
+    def find(tn, mn):
+        for name, it in api_roots(F):
+            st = (it.get('self_ty') or '').lstrip('&')
+            if not it.get('trait') and st.rsplit('::', 1)[-1] == tn and (it.get('name') or '') == mn:
+                return name, it
+        return None, None
+    for (src, m3, conv) in (('Quat', 'Mat3', 'from_quat'), ('DQuat', 'DMat3', 'from_quat'), ('Mat4', 'Mat3', 'from_mat4'), ('DMat4', 'DMat3', 'from_mat4')):
+        sname, sit = find(src, 'to_euler')
+        mname_, mit = find(m3, 'to_euler')
+        cname, cit = find(m3, conv)
+        if sit is None or mit is None or cit is None:
+            ctx.unverifiable('R-INV-DELEG', cfg, '%s::to_euler' % src, 'functions not found')
+            continue
+        rc = H.run(cit['key'])
+        cbody = F.body(cit['key'])
+        E = M.entries(rc.ret, cbody['locals'][0]) if not rc.abort and rc.ret is not None else None
+        if E is None:
+            ctx.unverifiable('R-INV-DELEG', cfg, '%s::to_euler' % src, 'conversion %s not analysable' % conv)
+            continue
+        sb, mb = F.body(sit['key']), F.body(mit['key'])
+        runs_m = dict(H.run_all(mit['key']))
+        for (label, rs) in H.run_all(sit['key']):
+            inst = '%s[%s]' % (sname, label)
+            rm = runs_m.get(label)
+            if rs.abort or rm is None or rm.abort:
+                ctx.undecided('R-INV-DELEG', cfg, inst, rs.abort or 'no 3x3 counterpart')
+                continue
+            cs = _tuple_scalars(F, rs.ret, sb['locals'][0])
+            cm = _tuple_scalars(F, rm.ret, mb['locals'][0])
+            ent, _mi = M.arg_entries(rm, 0, mb['locals'][1])
+            # atoms of the conversion's operand -> atoms of this function's operand (same offsets; by value vs by reference)
+            ren = {}
+            for a, info in rc.atoms.items():
+                if info.arg == 0:
+                    for b, infb in rs.atoms.items():
+                        if infb.arg == 0 and infb.off == info.off and infb.kind == info.kind:
+                            ren[a] = b
+            mp = {ent[k]: tm.subst(E[k], ren) for k in ent}
+            bad = None
+            for i in range(3):
+                if tm.subst(cm[i], mp) is not cs[i]:
+                    bad = 'component %d is not the 3x3 to_euler of %s(self)' % (i, conv)
+                    break
+            done('R-INV-DELEG', inst, bad, it=sit)
+
+
+def check_to_axis_angle(ctx, cfg, F, H, done):
+    """R-INV-AXIS: to_axis_angle returns (v / |v|, 2 atan2(|v|, w)) on the regular branch, so (axis sin(t/2), cos(t/2)) rebuilds q under |q| = 1;
+    to_scaled_axis is axis * angle of the same function."""
+    from post import unit_relation
+    axis_terms = {}
+    for name, it in api_roots(F):
+        st = (it.get('self_ty') or '').lstrip('&')
+        tname = st.rsplit('::', 1)[-1]
+        mname = it.get('name') or ''
+        if it.get('trait') or tname not in QUATS or mname not in ('to_axis_angle', 'to_scaled_axis'):
+            continue
+        body = F.body(it['key'])
+        argtys = body['locals'][1:1 + body['argc']]
+        rty = body['locals'][0]
+        r = H.run(it['key'])
+        if r.abort or r.ret is None:
+            ctx.undecided('R-INV-AXIS', cfg, name, r.abort or 'diverges')
+            continue
+        av = ArgView(F, r, 0, argtys[0])
+        if mname == 'to_axis_angle':
+            t = F.types[rty]
+            (o0, f0, _), (o1, f1, _) = t['fields'][0], t['fields'][1]
+            from C02 import _sub
+            axis = value_lanes(F, _sub(r.ret, o0, F.types[f0]['sz']), f0)
+            angle = cell_term(r.ret, o1, F.types[f1]['sz'])
+            outs = (axis or []) + [angle]
+        else:
+            outs = value_lanes(F, r.ret, rty)
+        if not outs or any(o is None for o in outs) or av.lanes is None:
+            ctx.unverifiable('R-INV-AXIS', cfg, name, 'result / operand lanes not found')
+            continue
+        cases = _cases(outs)
+        bad = None
+        n_reg = 0
+        for asg, cs in (cases or []):
+            if all(tm.is_const(c) for c in cs):
+                continue          # |v| < eps: the conventional (X, 0) / zero
+            alg = nf.Algebra()
+            S = Spec(alg)
+            unit_relation(alg, av.lanes)
+            q = [alg.nf(x) for x in av.lanes]
+            atans = []
+            for c in cs:
+                _subterms(c, 'atan2', atans, set())
+            if not atans:
+                continue          # degenerate branch (no angle is computed)
+            if len(set(atans)) != 1:
+                bad = 'regular branch does not use exactly one atan2'
+                break
+            at = atans[0]
+            n_, d_ = alg.nf(at.args[0]), alg.nf(at.args[1])
+            rho = alg.sqrt_r(S.add(S.mul(n_, n_), S.mul(d_, d_)))
+            sh_, ch_ = S.div(n_, rho), S.div(d_, rho)       # sin, cos of t/2 = atan2(n, d)
+            half = alg.nf(at)
+            if mname == 'to_axis_angle':
+                if not S.eq(alg.nf(cs[3]), S.mul(S.c(2), half)):
+                    bad = 'angle is not 2 atan2(|v|, w)'
+                    break
+                ax = [alg.nf(c) for c in cs[:3]]
+                rebuilt = [S.mul(x, sh_) for x in ax] + [ch_]
+                if not all(alg.reduce(S.sub(x, y)[0]).is_zero() for x, y in zip(rebuilt, q)):
+                    bad = '(axis sin(t/2), cos(t/2)) does not rebuild the quaternion under |q| = 1'
+                    break
+                axis_terms[tname] = (cs[:3], cs[3])
+            else:
+                ref = axis_terms.get(tname)
+                if ref is None:
+                    bad = 'to_axis_angle of the same type was not analysed'
+                    break
+                if not all(S.eq(alg.nf(c), S.mul(alg.nf(x), alg.nf(ref[1]))) for c, x in zip(cs, ref[0])):
+                    bad = 'to_scaled_axis is not axis * angle of to_axis_angle'
+                    break
+            n_reg += 1
+        if cases is None:
+            ctx.undecided('R-INV-AXIS', cfg, name, 'too many selections')
+            continue
+        if bad is None and n_reg == 0:
+            bad = 'no regular branch found'
+        done('R-INV-AXIS', name, bad, it)
+
+
+def _subterms(t, op, out, seen):
+    if t.id in seen:
+        return
+    seen.add(t.id)
+    if t.op == op:
+        out.append(t)
+    for a in t.args:
+        if isinstance(a, tm.T):
+            _subterms(a, op, out, seen)
 
 
 def run(ctx):
@@ -164,6 +427,12 @@ def run(ctx):
                     done('R-EULER', inst, bad, it)
                 if nvar != 24:
                     ctx.unverifiable('R-EULER', cfg, name, 'expected 24 EulerRot variants, specialised %d' % nvar)
+        check_to_euler(ctx, cfg, F, H, M, done)
+        check_to_axis_angle(ctx, cfg, F, H, done)
+        check_to_euler_delegation(ctx, cfg, F, H, M, done)
+        ctx.floor('to_euler delegation instances (%s)' % cfg, counts.get('R-INV-DELEG', 0), 96)
+        ctx.floor('to_euler variant instances (%s)' % cfg, counts.get('R-INV-EULER', 0), 72)
+        ctx.floor('to_axis_angle / to_scaled_axis instances (%s)' % cfg, counts.get('R-INV-AXIS', 0), 4)
         ctx.floor('types with from_euler (%s)' % cfg, len(euler_types), 7)
         ctx.floor('from_euler variant instances (%s)' % cfg, counts.get('R-EULER', 0), 168)
         ctx.floor('rotation constructor instances (%s)' % cfg, counts.get('R-ALG', 0), 40)
